@@ -45,6 +45,14 @@ def tsum(t):
     return sum(t)
 
 
+def addk(x, y=0, k=0):
+    return x + y + k
+
+
+def add3(a, b, c=0):
+    return a + b + c
+
+
 PROGS = {
     "map": lambda s: s.map(inc),
     "map.map": lambda s: s.map(inc).map(times10),
@@ -61,6 +69,10 @@ PROGS = {
     "pair.starmap": lambda s: s.map(pair).starmap(add),
     "zipself": lambda s: s.map(inc).zip(s.map(times10)),
     "zipself.starmap": lambda s: s.map(inc).zip(s.map(times10)).starmap(add),
+    # positional and keyword arguments must be forwarded like the local nodes forward them
+    "map.args": lambda s: s.map(addk, 5, k=10),
+    "starmap.kw": lambda s: s.map(pair).starmap(add3, c=100),
+    "acc.kw": lambda s: s.accumulate(addk, start=0, k=1),
     "fanout.union": lambda s: s.map(inc).union(s.map(times10)),
     # one emit delivers three elements to partition(2): the third arrives while the flush of
     # the first two is still being delivered through gather
